@@ -378,3 +378,130 @@ B('c20-benign-rename-and-not-eq', 'C20', PK,
             theirs = getattr(other, attr, None)
             if not (theirs == mine):
                 return False''')
+
+# =========================================================================== C13
+S('c13-int-cache-on-field', 'C13', F,
+  '''        integer = self.struct_obj.unpack(raw[offset:next_offset])[0]
+        setattr(pkt, self.field_name, integer)''',
+  '''        integer = self.struct_obj.unpack(raw[offset:next_offset])[0]
+        self.last_value = integer
+        setattr(pkt, self.field_name, integer)''', 'R5-runtime-stateless')
+S('c13-deepcopy-dropped', 'C13', F,
+  '''        except KeyError:
+            obj = copy.deepcopy(self.default)''',
+  '''        except KeyError:
+            obj = self.default''', 'R6-fresh-values')
+S('c13-sequence-init-shares-default', 'C13', SF,
+  '''    def init(self, packet, defaults):
+        Field.init(self, packet, defaults)
+        self.prototype_field.init(packet, {})
+
+    def unpack(self, pkt, raw, offset=0, **k):
+        sequence = []''',
+  '''    def init(self, packet, defaults):
+        setattr(packet, self.field_name, defaults.get(self.field_name, self.default))
+        self.prototype_field.init(packet, {})
+
+    def unpack(self, pkt, raw, offset=0, **k):
+        sequence = []''', 'R6-fresh-values')
+S('c13-sequence-unpack-reuses-default-list', 'C13', SF,
+  '''        sequence = []
+        setattr(
+            pkt, self.field_name, sequence
+        )''',
+  '''        sequence = self.default
+        del sequence[:]
+        setattr(
+            pkt, self.field_name, sequence
+        )''')
+S('c13-module-memo', 'C13', F,
+  '''    def _unpack_variable_size_field(self, pkt, raw, offset=0, **k):
+        byte_count = getattr(pkt, self.byte_count.field_name)''',
+  '''    def _unpack_variable_size_field(self, pkt, raw, offset=0, **k):
+        byte_count = getattr(pkt, self.byte_count.field_name)
+        _SIZE_HINTS[self.field_name] = byte_count''',
+  edits=[(F, '''# end of string
+EOS = re.compile(b"$")''', '''# end of string
+EOS = re.compile(b"$")
+_SIZE_HINTS = {}'''),
+         (F, '''    def _unpack_variable_size_field(self, pkt, raw, offset=0, **k):
+        byte_count = getattr(pkt, self.byte_count.field_name)''',
+          '''    def _unpack_variable_size_field(self, pkt, raw, offset=0, **k):
+        byte_count = getattr(pkt, self.byte_count.field_name)
+        _SIZE_HINTS[self.field_name] = byte_count''')], rule='R5-runtime-stateless')
+S('c13-clone-returns-template', 'C13', PK,
+  '''    def _clone_from_live_obj(self):
+        return copy.deepcopy(self.template)''',
+  '''    def _clone_from_live_obj(self):
+        return self.template''', 'R6-fresh-values')
+S('c13-ref-init-no-clone', 'C13', F,
+  '''            if self.field_name not in defaults:
+                defaults[self.field_name] = prototype.clone()''',
+  '''            if self.field_name not in defaults:
+                defaults[self.field_name] = prototype.template''', 'R6-fresh-values')
+S('c13-f3a-reverted', 'C13', F,
+  '''        referenced = referenced.__class__(_initialize_fields=False)
+        setattr(pkt, self.field_name, referenced)''',
+  '''        setattr(pkt, self.field_name, referenced)''', 'R6-fresh-values')
+S('c13-optional-pack-clears-field', 'C13', SF,
+  '''        if obj is not None:
+            setattr(pkt, opt_elem_field_name, obj)
+            return self.prototype_field.pack(pkt, fragments, **k)''',
+  '''        if obj is not None:
+            setattr(pkt, opt_elem_field_name, obj)
+            setattr(pkt, self.field_name, None)
+            return self.prototype_field.pack(pkt, fragments, **k)''', 'R5-pack-purity')
+S('c13-exec-expr-shared-stack', 'C13', DF,
+  '''    args = list(args)
+
+    for arg_count, op in ops:''',
+  '''    for arg_count, op in ops:''', 'R5-runtime-stateless')
+S('c13-auto-get-memo', 'C13', DS,
+  '''        if iam_enabled:
+            return self.func(instance)''',
+  '''        if iam_enabled:
+            self.last = self.func(instance)
+            return self.last''', 'R5-runtime-stateless')
+S('c13-bits-pack-scratch-on-field', 'C13', F,
+  '''        I = getattr(pkt, self.I.field_name)
+        setattr(
+            pkt, self.I.field_name,
+            ((getattr(pkt, self.field_name) << self.shift) & self.mask) |
+            (I & (~self.mask))
+        )
+
+        if self.iam_last:
+            return self.I.pack(pkt, fragments=fragments, **k)''',
+  '''        I = getattr(pkt, self.I.field_name)
+        self.I.acc = ((getattr(pkt, self.field_name) << self.shift) & self.mask) | (I & (~self.mask))
+        setattr(pkt, self.I.field_name, self.I.acc)
+
+        if self.iam_last:
+            return self.I.pack(pkt, fragments=fragments, **k)''', 'R5-runtime-stateless')
+S('c13-packet-class-counter', 'C13', PK,
+  '''        pkt = cls(_initialize_fields=False)
+        try:''',
+  '''        pkt = cls(_initialize_fields=False)
+        cls.__bisturi__['last_raw'] = raw
+        try:''', 'R5-runtime-stateless')
+B('c13-benign-field-init-rewritten', 'C13', F,
+  '''        try:
+            obj = defaults[self.field_name]
+        except KeyError:
+            obj = copy.deepcopy(self.default)
+
+        setattr(packet, self.field_name, obj)''',
+  '''        name = self.field_name
+        if name in defaults:
+            value = defaults[name]
+        else:
+            value = copy.deepcopy(self.default)
+        setattr(packet, name, value)''')
+B('c13-benign-local-accumulators', 'C13', SF,
+  '''        sequence = []
+        setattr(
+            pkt, self.field_name, sequence
+        )''',
+  '''        items = list()
+        setattr(pkt, self.field_name, items)
+        sequence = items''')
